@@ -62,6 +62,17 @@ Open Scope string_scope.
   Fixpoint map2 {A B C} (f : A -> B -> C) (l : list A) (m : list B) : list C :=
     match l, m with a :: l', b :: m' => f a b :: map2 f l' m' | _, _ => [] end.
 
+  (* the property's domain, decided by the entry itself on the arguments: Some false = inside; Some true = some altitude is finite but
+     outside +-2^25 m (case skipped, never scored); None = not valid points (NaN / infinite coordinate, lon / lat out of range) *)
+  Definition worst_zone (zs : list alt_zone) : option bool :=
+    if existsb (fun z => match z with ZNone => true | _ => false end) zs then None
+    else Some (existsb (fun z => match z with ZBeyond => true | _ => false end) zs).
+  Definition gate_points (ps : list point) : option bool :=
+    if forallb (fun p => lonlat_valid (plon p) (plat p)) ps then worst_zone (map (fun p => alt_zone_of (palt p)) ps) else None.
+  Definition gate_ppoints (qs : list ppoint) : option bool :=
+    if forallb (fun q => is_some (fq (px q)) && is_some (fq (py q))) qs then worst_zone (map (fun q => alt_zone_of (pz q)) qs) else None.
+  Definition skipped_case : verdict := mkv true true "skipped" VNil.
+
   Section WithOracle.
     Variable oracle : oracle_t.
     Let tr := tr_of oracle.
@@ -84,9 +95,23 @@ Open Scope string_scope.
           end
       | None => false
       end.
+    (* alt_fed_to_datum, forward: the northing alone is off, by no more than the law of the finding (Project.fwd_excused), and the
+       same point at height 0 meets the nominal tolerance *)
     Definition fwd_stat (p : point) (q : ppoint) : pstat :=
       if check_fwd_xy yref p q then POk
-      else if alt_nonzero (palt p) && fwd_ok_at_0 p then PAlt else PBad.
+      else if fwd_excused yref p q then (if fwd_ok_at_0 p then PAlt else PBad) else PBad.
+
+    (* EPSG:3857 is defined on every valid point, so a forward error there is a failure of the claim. The one explicable case: the
+       first point the transform refuses lies in the singular zone of the geocentric detour (ZDeep: the exact centre of the earth
+       gives NaN, which the library refuses) and is accepted at height 0 *)
+    Definition fwd_refusal_stat (ps : list point) : pstat :=
+      match find (fun p => is_none (tr geo_crs orth_crs (plon p) (plat p) (palt p))) ps with
+      | Some p => match alt_zone_of (palt p) with
+                  | ZDeep => if alt_nonzero (palt p) then (if fwd_ok_at_0 p then PAlt else PBad) else PBad
+                  | _ => PBad
+                  end
+      | None => PBad
+      end.
 
     (* the error flag agrees with the transform asked at the points' heights, or else at height 0 *)
     Definition err_agrees (oe : bool) (anyerr : (float -> float) -> bool) : bool :=
@@ -110,6 +135,7 @@ Open Scope string_scope.
       | [pl; VZ crs] =>
           match dec_list as_gpoint pl, obs_list as_ppoint obs with
           | Some ps, Some o =>
+              match gate_points ps with None => bad_case | Some true => skipped_case | Some false =>
               let m := to_projected epsg_known tr ps crs in
               let corr := corr_res ppoint_eqb m o in
               let '(ol, ok) := o in
@@ -124,13 +150,15 @@ Open Scope string_scope.
                 let structural :=
                   err_agrees oe (fun h => existsb (fun p => is_none (tr geo_crs crs (plon p) (plat p) (h (palt p)))) ps) &&
                   (if oe then true else forall2b (fwd_elem_ok crs) ps ol) in
-                let st := if (crs =? orth_crs)%Z && negb oe && structural then worst (map2 fwd_stat ps ol) else POk in
-                let numeric := match st with POk => true | _ => false end in
                 (* EPSG:3857 is defined on every valid point: no error expected there *)
                 let total := negb ((crs =? orth_crs)%Z && oe) in
+                let st := if negb total then fwd_refusal_stat ps
+                          else if (crs =? orth_crs)%Z && negb oe && structural then worst (map2 fwd_stat ps ol) else POk in
+                let numeric := match st with POk => true | _ => false end in
                 let prop := structural && numeric && total && conv_kind_ok ok in
-                let cls := if corr && structural && total then match st with PAlt => "alt_fed_to_datum" | _ => "-" end else "-" in
+                let cls := if corr && structural && conv_kind_ok ok then match st with PAlt => "alt_fed_to_datum" | _ => "-" end else "-" in
                 mkv corr prop cls (res_val of_ppoint m)
+              end
           | _, _ => bad_case
           end
       | _ => bad_case
@@ -148,6 +176,7 @@ Open Scope string_scope.
       | [pl; VZ crs] =>
           match dec_list as_ppoint pl, obs_list as_gpoint obs with
           | Some qs, Some o =>
+              match gate_ppoints qs with None => bad_case | Some true => skipped_case | Some false =>
               let m := to_geographic epsg_known tr qs crs in
               let corr := corr_res point_eqb m o in
               let '(ol, ok) := o in
@@ -161,28 +190,35 @@ Open Scope string_scope.
                   (if oe then true else forall2b (back_elem_ok crs) qs ol) in
                 let alts := if oe then true else forall2b (fun q g => feqb_bits (palt g) (pz q)) qs ol in
                 mkv corr (order && alts && conv_kind_ok ok) "-" (res_val of_gpoint m)
+              end
           | _, _ => bad_case
           end
       | _ => bad_case
       end.
 
     (* ---- ProjectRoundTrip(points): through consts.OrthCrs and back; observed [GeoCrs; OrthCrs; forward result; backward result] ---- *)
-    Definition alt_excuse (p : point) : pstat := if alt_nonzero (palt p) && rt_ok_at_0 p then PAlt else PBad.
+    (* alt_fed_to_datum, there and back: each half meets its nominal tolerance or deviates by no more than the law of the finding
+       (latitude axis only), and the same point at height 0 meets the nominal tolerances all the way *)
     Definition rt_stat (p : point) (qg : ppoint * point) : pstat :=
       let '(q, g) := qg in
-      if check_fwd_xy yref p q && check_back p g then POk else alt_excuse p.
-    (* when the way back ended in an error: which points are to blame. A refused image is a failed round trip of its point; the points
-       the code never reached are judged on what the transform would have returned for them. *)
+      if check_fwd_xy yref p q && check_back p g then POk
+      else if (if check_fwd_xy yref p q then true else fwd_excused yref p q) && (if check_back p g then true else back_excused p g)
+           then (if rt_ok_at_0 p then PAlt else PBad) else PBad.
+    (* when the way back ended in an error: which points are to blame. A refused image is a failed round trip of its point - explicable
+       by the finding only when the point's latitude is within the law of the limit; the points the code never reached are judged on
+       what the transform would have returned for them. *)
     Definition rt_stat_refused (p : point) (q : ppoint) : pstat :=
       match back_point tr orth_crs q with
-      | inl g => if check_fwd_xy yref p q && check_back p g then POk else alt_excuse p
-      | inr _ => alt_excuse p
+      | inl g => rt_stat p (q, g)
+      | inr _ => if (if check_fwd_xy yref p q then true else fwd_excused yref p q) && refusal_excused p
+                 then (if rt_ok_at_0 p then PAlt else PBad) else PBad
       end.
     Definition d_round_trip (args : list val) (obs : val) : verdict :=
       match args, obs with
       | [pl], VL [VZ cg; VZ co; fo; bo] =>
           match dec_list as_gpoint pl, obs_list as_ppoint fo, obs_list as_gpoint bo with
           | Some ps, Some f, Some b =>
+              match gate_points ps with None => bad_case | Some true => skipped_case | Some false =>
               let m := round_trip epsg_known tr ps orth_crs in
               let consts_ok := (cg =? geo_crs)%Z && (co =? orth_crs)%Z in
               let corr := consts_ok && corr_res ppoint_eqb (fst m) f && corr_res point_eqb (snd m) b in
@@ -192,10 +228,12 @@ Open Scope string_scope.
               let st := if shape then worst (map2 rt_stat ps (combine (fst f) (fst b)))
                         else if fwd_shape && is_some (snd b) then
                                match worst (map2 rt_stat_refused ps (fst f)) with POk => PBad | s => s end
+                             else if consts_ok && is_some (snd f) then fwd_refusal_stat ps
                              else PBad in
               let prop := shape && match st with POk => true | _ => false end in
-              let cls := if corr && fwd_shape then match st with PAlt => "alt_fed_to_datum" | _ => "-" end else "-" in
+              let cls := if corr && consts_ok then match st with PAlt => "alt_fed_to_datum" | _ => "-" end else "-" in
               mkv corr prop cls (VL [VZ geo_crs; VZ orth_crs; res_val of_ppoint (fst m); res_val of_gpoint (snd m)])
+              end
           | _, _, _ => bad_case
           end
       | _, _ => bad_case
